@@ -5,6 +5,8 @@ from vlib import common
 def key_fn(case, obs, verdict):
     v = verdict.split(" ")[0]
     v = v[4:] if v.startswith("BAD:") else v
+    if v.startswith("outcome:warm-up"):
+        return "Gun.WarmUp:" + v
     if v.startswith("outcome") or v.startswith("run-hang"):
         return "Engine.Run:" + v
     if v.startswith("wait-hang") or v.startswith("wait-early") or v.startswith("goroutines"):
@@ -24,11 +26,14 @@ def run(ctx):
         rule=("non-trivial: a component failure occurred, or a cancel was planned/happened, or the engine had >= 2 pools; "
               "distinct = distinct case lines (fault plan x cancel plan x pools)"),
         key_fn=key_fn, what_fn=what_fn,
-        translators=[("runasync", "RunAsyncGen.v")], bridge_files=["Gen/RunAsync_bridge.v"],
+        translators=[("runasync", "RunAsyncGen.v"), ("grpcwarmup", "GrpcWarmUpGen.v")],
+        bridge_files=["Gen/RunAsync_bridge.v", "Gen/GrpcWarmUp_bridge.v"],
         trusted=[
             "extraction: ExtrOcamlBasic only; OCaml driver ocaml/C05/main.ml (history tokens -> model events) + ocaml/common/conv.ml",
             "correspondence harness harness/cmd/hC05: real engine.Engine with fault-plan mocks; the receive order of the await loop, "
             "the pool fronts and Engine.Run is read from the engine's own zap log (zaptest/observer), markers are logged before the effect they announce",
+            "the real grpc gun's warm-up runs against a hand-written in-process reflection endpoint (harness/cmd/hC05/grpcwarm.go); what the "
+            "client library (jhump/protoreflect grpcreflect) makes of the endpoint's answers is abstracted to 'descriptors / error of a status code'",
             "modelled, not verified: instances/start loop/provider/aggregator are producers of one result each (their internals: C03, C06, C08, C12); "
             "liveness of the components (each delivers its result once its context is cancelled) is a hypothesis",
         ],
